@@ -395,9 +395,27 @@ func plantEmptyKey(n *dm.Node, tr dm.Tree) {
 	}
 }
 
+func dropEmptyLists(t dm.Tree) {
+	for k, v := range t {
+		switch x := v.(type) {
+		case []interface{}:
+			if len(x) == 0 {
+				delete(t, k)
+			}
+			for _, e := range x {
+				if et, ok := e.(dm.Tree); ok {
+					dropEmptyLists(et)
+				}
+			}
+		case dm.Tree:
+			dropEmptyLists(x)
+		}
+	}
+}
+
 func c08Gen(t *rapid.T) c08Case {
 	o := dm.DefaultGen()
-	store := rapid.SampledFrom([]string{"rs", "rs", "reflect-map", "json-reader"}).Draw(t, "store")
+	store := rapid.SampledFrom([]string{"rs", "rs", "reflect-map", "json-reader", "xml-reader"}).Draw(t, "store")
 	o.Types = []string{"int8", "int32", "int64", "uint16", "decimal64", "string", "boolean", "enumeration"}
 	o.KeyTypes = []string{"string", "string", "int32", "int64", "uint8", "boolean", "enumeration"}
 	o.ConfigFalse, o.Unions = true, false
@@ -410,6 +428,13 @@ func c08Gen(t *rapid.T) c08Case {
 	m := dm.GenModule(t, o)
 	root := m.Root()
 	data := dm.GenTree(t, root, dm.TreeOpts{MaxEntries: 3, PresentPct: 80, NoEmptyStr: true})
+	if store == "xml-reader" {
+		dropEmptyLists(data) // XML has no way to say that a list is there and empty
+		replaced := 0
+		if xmlRepresentable(data, &replaced); replaced > 0 {
+			store = "rs" // nor a way to carry every character
+		}
+	}
 	if rapid.IntRange(0, 3).Draw(t, "empty-key") == 0 {
 		plantEmptyKey(root, data) // RFC 8040 3.5.3: "list=" addresses the entry whose key is the empty string
 	}
